@@ -128,6 +128,7 @@ var classes = []string{"[a-z]", "[a-z0-9-]", "[0-9a-f-]", "[^,;]", "[A-Za-z_.]",
 
 type genState struct {
 	labelSeq int
+	plainLabels []string // labels of unconditional (100%) drop steps so far
 	allowSampled bool
 }
 
@@ -195,11 +196,20 @@ func genStep(t *rapid.T, st *genState, depth int) Step {
 		s.Steps = genSteps(t, st, depth-1, rapid.IntRange(1, 3).Draw(t, "nblock"))
 	case "drop":
 		s.Match = genMatch(t)
-		st.labelSeq++
-		s.Label = fmt.Sprintf("drop%d", st.labelSeq)
 		s.Percentage = 100
 		if st.allowSampled && rapid.Bool().Draw(t, "sampled") {
 			s.Percentage = rapid.OneOf(rapid.IntRange(1, 99), rapid.SampledFrom([]int{1, 33, 50, 99})).Draw(t, "pct")
+		}
+		// several steps may report to one metric label (e.g. the same label in two switch branches); sampled drops keep a
+		// label of their own because the reference learns their decisions from the label's counter
+		if s.Percentage == 100 && len(st.plainLabels) > 0 && rapid.IntRange(0, 2).Draw(t, "sharedLabel") == 0 {
+			s.Label = rapid.SampledFrom(st.plainLabels).Draw(t, "label")
+		} else {
+			st.labelSeq++
+			s.Label = fmt.Sprintf("drop%d", st.labelSeq)
+			if s.Percentage == 100 {
+				st.plainLabels = append(st.plainLabels, s.Label)
+			}
 		}
 	case "extractHead", "extractTail":
 		s.Key = genField.Draw(t, "key")
